@@ -228,6 +228,264 @@ __CPROVER_ensures(__CPROVER_return_value == -1 || (__CPROVER_rw_ok(gw->_curInput
 MG_HARNESS = '\nvoid h_main(void) { mv_rx_total = 0; mv_rx_calls = 0; uint32 n_; mv_nb = n_; MMessageGateway *g; uint32 mb; void *a; MMessage **r; MGDoInput(g, mb, mv_recv, a, r); %s }\n' % END
 
 
+# ---- Route X: the C++ MessageIOGateway's receive step (TCP-style): where the next read window is computed ----
+MGW_CPP = 'iogateway/MessageIOGateway.cpp'
+RMD = '_ZN6muscle16MessageIOGateway15ReceiveMoreDataERjS1_j'
+RMD_MODEL = r"""
+#define ST_OK(r) ((r)._desc == (const char *)0)
+unsigned char *mv_rb; unsigned int mv_nb;            /* ghost: the current receive buffer and its size in bytes (any size) */
+_Bool mv_have_io, mv_err_set; unsigned int mv_req; int mv_got;   /* ghost: is there a DataIO; was the gateway marked broken; the transport's last request / answer */
+struct Ref_DataIO mv_dio_ref; struct DataIO mv_dio; struct ByteBuffer mv_bb;
+struct Ref_DataIO *%(GetDataIO)s(struct AbstractMessageIOGateway *this) { return &mv_dio_ref; }
+struct DataIO *%(DioCall)s(struct Ref_DataIO *this) { return mv_have_io ? &mv_dio : (struct DataIO *)0; }
+struct ByteBuffer *%(BBCall)s(struct Ref_ByteBuffer *this) { __CPROVER_assert(this == &mv_gw->_recvBuffer._buffer, "the receive buffer of this gateway"); return &mv_bb; }
+unsigned char *%(GetBuffer)s(struct ByteBuffer *this) { return mv_rb; }
+/* the transport: error, or any count from 0 (would block) up to what was asked for */
+struct io_status_t %(Read)s(struct DataIO *this, void *buffer, unsigned int size)
+{
+   __CPROVER_assert(__CPROVER_same_object(buffer, mv_rb) && __CPROVER_POINTER_OFFSET(buffer) >= 0 && (unsigned long)__CPROVER_POINTER_OFFSET(buffer) + size <= mv_nb,
+                    "receive window lies inside the receive buffer");
+   struct io_status_t r; int n; _Bool fail;
+   mv_req = size;
+   if (fail) { r._status._desc = "I/O Error"; r._byteCount = -1; mv_got = -1; }
+        else { __CPROVER_assume(n >= 0 && (unsigned int)n <= size); r._status._desc = (char *)0; r._byteCount = n; mv_got = n; }
+   return r;
+}
+void %(SetErr)s(struct AbstractMessageIOGateway *this, struct status_t st) { __CPROVER_assert(!ST_OK(st), "only a real error marks the gateway broken"); mv_err_set = 1; }
+#define MV_ATTEMPT(mb, mx, off) ((((mx) > (off) ? (mx) - (off) : 0u) < (mb)) ? ((mx) > (off) ? (mx) - (off) : 0u) : (mb))
+struct status_t %(RMD)s(struct MessageIOGateway *this, unsigned int *readBytes, unsigned int *maxBytes, unsigned int maxArraySize)
+/* callers pass the header size or the buffer's byte count, with the cursor inside the buffer */
+__CPROVER_requires(__CPROVER_is_fresh(this, sizeof(struct MessageIOGateway)) && mv_gw == this && __CPROVER_is_fresh(readBytes, sizeof(unsigned int)) && __CPROVER_is_fresh(maxBytes, sizeof(unsigned int)))
+__CPROVER_requires(maxArraySize <= mv_nb && this->_recvBuffer._offset <= mv_nb && mv_got == -2 && !mv_err_set)
+__CPROVER_assigns(this->_recvBuffer._offset, *readBytes, *maxBytes, mv_err_set, mv_req, mv_got)
+/* no DataIO, or a transport error: the gateway is marked broken, the cursor does not move, "short read" is reported */
+__CPROVER_ensures(mv_got >= 0 || (mv_err_set && !ST_OK(__CPROVER_return_value) && this->_recvBuffer._offset == __CPROVER_old(this->_recvBuffer._offset) && *readBytes == __CPROVER_old(*readBytes) && *maxBytes == __CPROVER_old(*maxBytes)))
+/* otherwise the transport was asked for exactly min(maxBytes, room up to maxArraySize) bytes, and the three counters move by what it delivered */
+__CPROVER_ensures(mv_got < 0 || (mv_req == MV_ATTEMPT(__CPROVER_old(*maxBytes), maxArraySize, __CPROVER_old(this->_recvBuffer._offset)) && !mv_err_set && \
+      this->_recvBuffer._offset == __CPROVER_old(this->_recvBuffer._offset) + (unsigned int)mv_got && *readBytes == __CPROVER_old(*readBytes) + (unsigned int)mv_got && \
+      *maxBytes == __CPROVER_old(*maxBytes) - (unsigned int)mv_got && ST_OK(__CPROVER_return_value) == ((unsigned int)mv_got == mv_req)))
+/* the cursor never passes the limit it was given (when it started at or below it) */
+__CPROVER_ensures(__CPROVER_old(this->_recvBuffer._offset) > maxArraySize || this->_recvBuffer._offset <= maxArraySize)
+;
+"""
+_rx = {}
+
+
+def rmd_job():
+    import tempfile, shutil
+    from mv import cxx2c
+    if 'L' not in _rx:
+        wd = tempfile.mkdtemp(prefix='mv_ast_', dir=os.environ.get('MV_SCRATCH', '/var/tmp'))
+        try:
+            docs = cxx2c.dump_ast('#include "iogateway/MessageIOGateway.cpp"\n', wd, repo=REPO)
+            L = cxx2c.Lowerer(docs, memberwise=('status_t', 'io_status_t'), vdispatch=('DataIO::Read',),
+                              follow=lambda qn, d: qn.endswith('MessageIOGateway::ReceiveMoreData') or 'status_t::' in qn or 'muscleMin' in qn)
+            roots = cxx2c.find_functions(L, record='MessageIOGateway', names=['ReceiveMoreData'])
+            if len(roots) != 1:
+                raise cxx2c.Unsupported('MessageIOGateway::ReceiveMoreData not found')
+            L.lower_all(roots)
+        finally:
+            shutil.rmtree(wd, ignore_errors=True)
+        _rx['L'] = L
+    L = _rx['L']
+    hdr, body = L.sliced([RMD])
+    names = dict(GetDataIO='_ZNK6muscle24AbstractMessageIOGateway9GetDataIOEv', DioCall='_ZNK6muscle3RefINS_6DataIOEEclEv', BBCall='_ZNK6muscle3RefINS_10ByteBufferEEclEv',
+                 GetBuffer='_ZN6muscle10ByteBuffer9GetBufferEv', Read='_ZN6muscle6DataIO4ReadEPvj__vcall', SetErr='_ZN6muscle24AbstractMessageIOGateway27SetUnrecoverableErrorStatusENS_8status_tE', RMD=RMD)
+    missing = [v for v in names.values() if v + '(' not in hdr]
+    if missing:
+        raise cxx2c.Unsupported('collaborator(s) no longer called by ReceiveMoreData (the model has no subject): %s' % missing)
+    har = ('\nvoid h_main(void) { mv_init_globals(); unsigned int n_; _Bool io_; mv_nb = n_; mv_rb = malloc(mv_nb); __CPROVER_assume(mv_rb != (unsigned char *)0); mv_have_io = io_; mv_err_set = 0; mv_got = -2; mv_req = 0;\n'
+           '  struct MessageIOGateway *g; mv_gw = g; unsigned int *r, *m; unsigned int x; %s(g, r, m, x); %s }\n' % (RMD, END))
+    tu = hdr + 'struct MessageIOGateway *mv_gw;\n' + RMD_MODEL % names + '\n' + body + har
+    return Job('mgw_ReceiveMoreData', tu, 'h_main', enforce=[RMD], loops=False, klass='proved',
+               functions=[(MGW_CPP, 'MessageIOGateway::ReceiveMoreData')], timeout=600, split=0,
+               note='loop-free: every buffer size, cursor, limit, byte budget and transport answer')
+
+
+SMD = '_ZN6muscle16MessageIOGateway12SendMoreDataERjS1_'
+GBS = '_ZNK6muscle16MessageIOGateway11GetBodySizeEPKhRj'
+SMD_MODEL = r"""
+#define ST_OK(r) ((r)._desc == (const char *)0)
+unsigned char *mv_sb; unsigned int mv_nb;            /* ghost: the current send buffer and its size in bytes (any size) */
+_Bool mv_have_io, mv_err_set; unsigned int mv_req; int mv_got;
+struct Ref_DataIO mv_dio_ref; struct DataIO mv_dio; struct ByteBuffer mv_bb;
+struct Ref_DataIO *%(GetDataIO)s(struct AbstractMessageIOGateway *this) { return &mv_dio_ref; }
+struct DataIO *%(DioCall)s(struct Ref_DataIO *this) { return mv_have_io ? &mv_dio : (struct DataIO *)0; }
+struct ByteBuffer *%(BBCall)s(struct Ref_ByteBuffer *this) { __CPROVER_assert(this == &mv_gw->_sendBuffer._buffer, "the send buffer of this gateway"); return &mv_bb; }
+unsigned char *%(GetBuffer)s(struct ByteBuffer *this) { return mv_sb; }
+unsigned int %(GetNumBytes)s(struct ByteBuffer *this) { return mv_nb; }
+/* the transport: error, or any count from 0 (would block) up to what was offered */
+struct io_status_t %(Write)s(struct DataIO *this, void *buffer, unsigned int size)
+{
+   __CPROVER_assert(__CPROVER_same_object(buffer, mv_sb) && __CPROVER_POINTER_OFFSET(buffer) >= 0 && (unsigned long)__CPROVER_POINTER_OFFSET(buffer) + size <= mv_nb,
+                    "send window lies inside the send buffer");
+   __CPROVER_assert((unsigned long)__CPROVER_POINTER_OFFSET(buffer) == mv_gw->_sendBuffer._offset, "send window starts at the first byte not yet sent");
+   struct io_status_t r; int n; _Bool fail;
+   mv_req = size;
+   if (fail) { r._status._desc = "I/O Error"; r._byteCount = -1; mv_got = -1; }
+        else { __CPROVER_assume(n >= 0 && (unsigned int)n <= size); r._status._desc = (char *)0; r._byteCount = n; mv_got = n; }
+   return r;
+}
+void %(SetErr)s(struct AbstractMessageIOGateway *this, struct status_t st) { __CPROVER_assert(!ST_OK(st), "only a real error marks the gateway broken"); mv_err_set = 1; }
+#define MV_MINU(a, b) (((a) < (b)) ? (a) : (b))
+struct status_t %(SMD)s(struct MessageIOGateway *this, unsigned int *sentBytes, unsigned int *maxBytes)
+/* DoOutputImplementation calls this with a pending buffer whose cursor is inside it */
+__CPROVER_requires(__CPROVER_is_fresh(this, sizeof(struct MessageIOGateway)) && mv_gw == this && __CPROVER_is_fresh(sentBytes, sizeof(unsigned int)) && __CPROVER_is_fresh(maxBytes, sizeof(unsigned int)))
+__CPROVER_requires(this->_sendBuffer._offset <= mv_nb && mv_got == -2 && !mv_err_set)
+__CPROVER_assigns(this->_sendBuffer._offset, *sentBytes, *maxBytes, mv_err_set, mv_req, mv_got)
+__CPROVER_ensures(mv_got >= 0 || (mv_err_set && !ST_OK(__CPROVER_return_value) && this->_sendBuffer._offset == __CPROVER_old(this->_sendBuffer._offset) && *sentBytes == __CPROVER_old(*sentBytes) && *maxBytes == __CPROVER_old(*maxBytes)))
+/* the transport is offered exactly min(maxBytes, bytes still pending), and the three counters move by what it took */
+__CPROVER_ensures(mv_got < 0 || (mv_req == MV_MINU(__CPROVER_old(*maxBytes), mv_nb - __CPROVER_old(this->_sendBuffer._offset)) && !mv_err_set && \
+      this->_sendBuffer._offset == __CPROVER_old(this->_sendBuffer._offset) + (unsigned int)mv_got && *sentBytes == __CPROVER_old(*sentBytes) + (unsigned int)mv_got && \
+      *maxBytes == __CPROVER_old(*maxBytes) - (unsigned int)mv_got && ST_OK(__CPROVER_return_value) == ((unsigned int)mv_got == mv_req)))
+__CPROVER_ensures(this->_sendBuffer._offset <= mv_nb)
+;
+"""
+GBS_CONTRACT = r"""
+#define ST_OK(r) ((r)._desc == (const char *)0)
+#define MV_LE4(p) ((unsigned int)(p)[0] | ((unsigned int)(p)[1] << 8) | ((unsigned int)(p)[2] << 16) | ((unsigned int)(p)[3] << 24))
+/* documented frame header (MessageIOGateway.h): 4 bytes body size, 4 bytes encoding id, both little endian; encodings 'Enc0' .. 'Enc0'+9 */
+struct status_t %(GBS)s(struct MessageIOGateway *this, unsigned char *headerBuf, unsigned int *retNumBytes)
+__CPROVER_requires(__CPROVER_is_fresh(headerBuf, 8) && __CPROVER_is_fresh(retNumBytes, sizeof(unsigned int)))
+__CPROVER_assigns(*retNumBytes)
+__CPROVER_ensures(ST_OK(__CPROVER_return_value) == (MV_LE4(headerBuf + 4) >= 1164862256u && MV_LE4(headerBuf + 4) <= 1164862256u + 9u))
+__CPROVER_ensures(ST_OK(__CPROVER_return_value) ? *retNumBytes == MV_LE4(headerBuf) : *retNumBytes == __CPROVER_old(*retNumBytes))
+;
+"""
+
+
+def smd_gbs_jobs():
+    import tempfile, shutil
+    from mv import cxx2c
+    out = []
+    if 'L2' not in _rx:
+        wd = tempfile.mkdtemp(prefix='mv_ast_', dir=os.environ.get('MV_SCRATCH', '/var/tmp'))
+        try:
+            docs = cxx2c.dump_ast('#include "iogateway/MessageIOGateway.cpp"\n', wd, repo=REPO)
+            Ls = {}
+            for nm in ('SendMoreData', 'GetBodySize'):
+                L = cxx2c.Lowerer(docs, memberwise=('status_t', 'io_status_t'), vdispatch=('DataIO::Write',),
+                                  follow=lambda qn, d, nm=nm: qn.endswith('MessageIOGateway::' + nm) or 'status_t::' in qn or 'muscleMin' in qn or 'muscleInRange' in qn or 'EndianConverter' in qn or 'muscleCopy' in qn or 'B_REINTERPRET' in qn)
+                roots = cxx2c.find_functions(L, record='MessageIOGateway', names=[nm])
+                if len(roots) != 1:
+                    raise cxx2c.Unsupported('MessageIOGateway::%s not found' % nm)
+                L.lower_all(roots)
+                Ls[nm] = L
+        finally:
+            shutil.rmtree(wd, ignore_errors=True)
+        _rx['L2'] = Ls
+    Ls = _rx['L2']
+    hdr, body = Ls['SendMoreData'].sliced([SMD])
+    names = dict(GetDataIO='_ZNK6muscle24AbstractMessageIOGateway9GetDataIOEv', DioCall='_ZNK6muscle3RefINS_6DataIOEEclEv', BBCall='_ZNK6muscle3RefINS_10ByteBufferEEclEv',
+                 GetBuffer='_ZNK6muscle10ByteBuffer9GetBufferEv', GetNumBytes='_ZNK6muscle10ByteBuffer11GetNumBytesEv', Write='_ZN6muscle6DataIO5WriteEPKvj__vcall',
+                 SetErr='_ZN6muscle24AbstractMessageIOGateway27SetUnrecoverableErrorStatusENS_8status_tE', SMD=SMD)
+    missing = [v for v in names.values() if v + '(' not in hdr]
+    if missing:
+        raise cxx2c.Unsupported('collaborator(s) no longer called by SendMoreData (the model has no subject): %s' % missing)
+    har = ('\nvoid h_main(void) { mv_init_globals(); unsigned int n_; _Bool io_; mv_nb = n_; mv_sb = malloc(mv_nb); __CPROVER_assume(mv_sb != (unsigned char *)0); mv_have_io = io_; mv_err_set = 0; mv_got = -2; mv_req = 0;\n'
+           '  struct MessageIOGateway *g; mv_gw = g; unsigned int *r, *m; %s(g, r, m); %s }\n' % (SMD, END))
+    out.append(Job('mgw_SendMoreData', hdr + 'struct MessageIOGateway *mv_gw;\n' + SMD_MODEL % names + '\n' + body + har, 'h_main', enforce=[SMD], loops=False, klass='proved',
+                   functions=[(MGW_CPP, 'MessageIOGateway::SendMoreData')], timeout=600, split=0,
+                   note='loop-free: every buffer size, cursor, byte budget and transport answer'))
+    hdr, body = Ls['GetBodySize'].sliced([GBS])
+    har = '\nvoid h_main(void) { mv_init_globals(); struct MessageIOGateway *g; unsigned char *h; unsigned int *n; %s(g, h, n); %s }\n' % (GBS, END)
+    out.append(Job('mgw_GetBodySize', hdr + GBS_CONTRACT % dict(GBS=GBS) + '\n' + body + har, 'h_main', enforce=[GBS], loops=False, klass='proved',
+                   functions=[(MGW_CPP, 'MessageIOGateway::GetBodySize')], timeout=600, split=0, note='loop-free: all 2^64 headers'))
+    return out
+
+
+# ---- Route X: the SLIP gateway's decoder (RFC 1055 byte un-stuffing), one received chunk at a time ----
+SLIP_CPP = 'iogateway/SLIPFramedDataMessageIOGateway.cpp'
+SLIPD = '_ZN6muscle30SLIPFramedDataMessageIOGateway26MessageReceivedFromGatewayERKNS_3RefINS_7MessageEEEPv'
+SLIP_MODEL = r"""
+#define MV_SN %(sn)d
+unsigned char mv_in[MV_SN + 1]; unsigned int mv_inlen;         /* ghost: the received chunk */
+unsigned char mv_ev_kind[2 * MV_SN + 2], mv_ev_byte[2 * MV_SN + 2]; unsigned int mv_nev;   /* ghost log: 1 = decoded byte appended, 2 = frame delivered */
+_Bool mv_esc0;                                                  /* ghost: "last byte was ESC" before the call */
+struct Message mv_the_message;
+struct Message *%(MsgCall)s(struct Ref_Message *this) { return &mv_the_message; }
+/* the raw-data Message holds exactly one chunk */
+struct status_t %(Find)s(struct Message *this, struct String *name, unsigned int tc, unsigned int index, void **data, unsigned int *nb)
+{
+   struct status_t r; r._desc = "Data Not Found";
+   __CPROVER_assert(this == &mv_the_message, "chunks are read from the received Message");
+   if (index == 0) { *data = (void *)mv_in; *nb = mv_inlen; r._desc = (char *)0; }
+   return r;
+}
+void %(StrCtor)s(struct String *this, char *str, unsigned int maxLen) { }
+void %(StrDtor)s(struct String *this) { }
+struct status_t %(Add)s(struct SLIPFramedDataMessageIOGateway *this, unsigned char b)
+{ struct status_t r; r._desc = (char *)0; __CPROVER_assert(mv_nev < 2 * MV_SN + 2, "log capacity"); mv_ev_kind[mv_nev] = 1; mv_ev_byte[mv_nev] = b; mv_nev++; return r; }
+struct status_t %(Flush)s(struct SLIPFramedDataMessageIOGateway *this, struct Ref_Message *msg)
+{ struct status_t r; r._desc = (char *)0; __CPROVER_assert(mv_nev < 2 * MV_SN + 2, "log capacity"); mv_ev_kind[mv_nev] = 2; mv_ev_byte[mv_nev] = 0; mv_nev++; return r; }
+void %(ResetAux)s(struct SLIPFramedDataMessageIOGateway *this, _Bool b) { __CPROVER_assert(0, "ResetAux is only reached after a failed append/flush, which the stubs never report"); }
+/* RFC 1055: END (0300) ends a frame; ESC (0333) + 0334 is a literal END, ESC + 0335 a literal ESC; (reference behaviour) ESC + END ends the frame and
+   ESC + anything else lets the byte through.  The un-stuffing state survives chunk boundaries. */
+static _Bool mv_slip_ok(_Bool final_esc)
+{
+   _Bool esc = mv_esc0; unsigned int n = 0;
+   for (unsigned int i = 0; i < MV_SN; i++)
+   {
+      if (i >= mv_inlen) break;
+      unsigned char b = mv_in[i]; unsigned char kind = 0, val = 0;
+      if (esc) { if (b == 0300) kind = 2; else { kind = 1; val = (b == 0334) ? 0300 : (b == 0335) ? 0333 : b; } esc = 0; }
+      else { if (b == 0300) kind = 2; else if (b != 0333) { kind = 1; val = b; } esc = (b == 0333); }
+      if (kind) { if (n >= mv_nev || mv_ev_kind[n] != kind || (kind == 1 && mv_ev_byte[n] != val)) return 0; n++; }
+   }
+   return n == mv_nev && esc == final_esc;
+}
+void %(SLIPD)s(struct SLIPFramedDataMessageIOGateway *this, struct Ref_Message *msg, void *unused)
+__CPROVER_requires(__CPROVER_is_fresh(this, sizeof(struct SLIPFramedDataMessageIOGateway)) && mv_inlen <= MV_SN && mv_nev == 0 && (mv_esc0 == 0 || mv_esc0 == 1) && this->_lastReceivedCharWasEscape == mv_esc0)
+__CPROVER_assigns(this->_lastReceivedCharWasEscape, mv_nev, __CPROVER_object_whole(mv_ev_kind), __CPROVER_object_whole(mv_ev_byte))
+__CPROVER_ensures(mv_slip_ok(this->_lastReceivedCharWasEscape))
+;
+"""
+
+
+def slip_job(tier):
+    import tempfile, shutil, re
+    from mv import cxx2c
+    if 'L3' not in _rx:
+        wd = tempfile.mkdtemp(prefix='mv_ast_', dir=os.environ.get('MV_SCRATCH', '/var/tmp'))
+        try:
+            docs = cxx2c.dump_ast('#include "iogateway/SLIPFramedDataMessageIOGateway.cpp"\n', wd, repo=REPO)
+            L = cxx2c.Lowerer(docs, memberwise=('status_t', 'io_status_t'), follow=lambda qn, d: qn.endswith('SLIPFramedDataMessageIOGateway::MessageReceivedFromGateway') or 'status_t::' in qn)
+            roots = cxx2c.find_functions(L, record='SLIPFramedDataMessageIOGateway', names=['MessageReceivedFromGateway'])
+            if len(roots) != 1:
+                raise cxx2c.Unsupported('SLIPFramedDataMessageIOGateway::MessageReceivedFromGateway not found')
+            L.lower_all(roots)
+        finally:
+            shutil.rmtree(wd, ignore_errors=True)
+        _rx['L3'] = L
+    L = _rx['L3']
+    hdr, body = L.sliced([SLIPD])
+    # C++ allows `case <static const uint8>:`; C does not.  The four protocol constants are replaced, in case labels only, by the values the
+    # lowering itself assigns to them in mv_init_globals() (taken from the AST); anything else is refused.
+    consts = dict(re.findall(r'^\s*(_ZN6muscleL\d+SLIP_\w+) = \(\(unsigned char\)(\d+)\);', body, re.M))
+    labels = set(re.findall(r'case \(\(int\)(\w+)\):', body))
+    if not labels or not labels <= set(consts):
+        raise cxx2c.Unsupported('SLIP decoder: case labels %s are not all protocol constants with a known value %s' % (sorted(labels), sorted(consts)))
+    for k in labels:
+        body = body.replace('case ((int)%s):' % k, 'case (%s):   /* %s */' % (consts[k], k))
+    sn = 5 if tier == 'quick' else 7
+    names = dict(sn=sn, MsgCall='_ZNK6muscle3RefINS_7MessageEEclEv', Find='_ZNK6muscle7Message8FindDataERKNS_6StringEjjPPKvPj', StrCtor='_ZN6muscle6StringC1EPKcj', StrDtor='_ZN6muscle6StringD1Ev',
+                 Add='_ZN6muscle30SLIPFramedDataMessageIOGateway14AddPendingByteEh', Flush='_ZN6muscle30SLIPFramedDataMessageIOGateway29FlushCurrentIncomingSLIPFrameERKNS_3RefINS_7MessageEEE',
+                 ResetAux='_ZN6muscle30SLIPFramedDataMessageIOGateway8ResetAuxEb', SLIPD=SLIPD)
+    missing = [v for k, v in names.items() if k != 'sn' and v + '(' not in hdr]
+    if missing:
+        raise cxx2c.Unsupported('collaborator(s) no longer called by the SLIP decoder (the model has no subject): %s' % missing)
+    har = ('\nvoid h_main(void) { mv_init_globals(); unsigned int n_; _Bool e_; mv_inlen = n_; mv_esc0 = e_ ? 1 : 0; mv_nev = 0;\n'
+           '  for (unsigned int i = 0; i < MV_SN + 1; i++) { unsigned char x_; mv_in[i] = x_; }\n'
+           '  struct SLIPFramedDataMessageIOGateway *g; struct Ref_Message *m; void *u; %s(g, m, u); %s }\n' % (SLIPD, END))
+    return Job('slip_MessageReceivedFromGateway', hdr + SLIP_MODEL % names + '\n' + body + har, 'h_main', enforce=[SLIPD], loops=False, klass='bounded', unwind=sn + 2,
+               bound='one received chunk of at most %d bytes (all contents), either un-stuffing state before it; loops unwound with unwinding assertions' % sn,
+               functions=[(SLIP_CPP, 'SLIPFramedDataMessageIOGateway::MessageReceivedFromGateway')], timeout=900, split=0)
+
+
+def mgw_jobs():
+    return [rmd_job()] + smd_gbs_jobs()
+
+
 def jobs(tier):
     maxb = 10 if tier == 'quick' else 20
     J = []
@@ -246,6 +504,8 @@ def jobs(tier):
     J.append(Job('ug_UGOutgoingMessagePrepared', pre_send + ug + UG_PREPARED_HARNESS, 'h_main', enforce=['UGOutgoingMessagePrepared'], replace=['UMGetFlattenedSize'],
                  loops=False, unwind=outb + 2, klass='bounded', bound='output buffer of at most %d bytes (any queue position and length, any content, any Message size that fits)' % outb,
                  functions=[(UG_C, 'UGOutgoingMessagePrepared'), (UG_C, 'UMWriteInt32')], timeout=900, split=0))
+    J += mgw_jobs()
+    J.append(slip_job(tier))
     if not os.environ.get('MV_SLOW'):
         return J   # MGDoInput: contract written below; cbmc needs > 60 GB already for maxBytes <= 3 (DESIGN change log)
     mg = inject(os.path.join(REPO, MG_C), [], [])
@@ -264,9 +524,11 @@ META = dict(
     assumptions=['the transport callback is modelled by mv_recv: returns -1, 0 (would block) or any count up to the request and writes only the bytes it reports',
                  'MiniMessage.c collaborators (MBAllocByteBuffer, MBFreeByteBuffer, MMAllocMessage, MMFreeMessage, MMUnflattenMessage) are opaque with the assumed contracts in props/c03.py',
                  'segmentation independence follows from the cursor contract by the additivity argument of DESIGN 5.C03 (on paper)', 'single thread'],
-    assumed_contracts=['memcpy (MGDoInput job)', 'memmove as a two-loop byte model (sender jobs)', 'UMInitializeToInvalid', 'UMInitializeToEmptyMessage', 'UMGetFlattenedSize', 'MBAllocByteBuffer', 'MBFreeByteBuffer', 'MMAllocMessage', 'MMFreeMessage', 'MMUnflattenMessage'],
-    not_lowered=['MessageIOGateway and every other C++ gateway, zlib encodings, templating, WebSocket, PlainText, SLIP', 'MGDoInput (contract written, > 60 GB) / MGDoOutput'],
+    assumed_contracts=['DataIO::Read/Write, Ref/ByteBuffer accessors, SetUnrecoverableErrorStatus (ghost stubs, C++ gateway jobs)', 'Message::FindData (one chunk), AddPendingByte/FlushCurrentIncomingSLIPFrame (event log, never fail) in the SLIP job', 'memcpy (MGDoInput job)', 'memmove as a two-loop byte model (sender jobs)', 'UMInitializeToInvalid', 'UMInitializeToEmptyMessage', 'UMGetFlattenedSize', 'MBAllocByteBuffer', 'MBFreeByteBuffer', 'MMAllocMessage', 'MMFreeMessage', 'MMUnflattenMessage'],
+    not_lowered=['MessageIOGateway::DoInputImplementation / DoOutputImplementation (the loops around the steps that ARE covered: ReceiveMoreData, SendMoreData, GetBodySize) and every other C++ gateway, zlib encodings, templating, WebSocket, PlainText, SLIP', 'MGDoInput (contract written, > 60 GB) / MGDoOutput'],
     explanation='UGDoInput and MGDoInput are enforced against a cursor contract: every receive window lies inside the current input buffer, the return value equals the bytes the transport delivered, '
                 'a body length is accepted only if it fits, a Message is surfaced exactly at a body end and the cursor then returns to the frame header. UGDoOutput hands the transport the queued bytes once each, in order. '
+                'MessageIOGateway::ReceiveMoreData / SendMoreData (C++, lowered from the AST): the window handed to the transport lies inside the current buffer and starts at the cursor, its length is min(budget, room), the cursor and both byte counters move by exactly what the transport reports, a transport error marks the gateway broken and moves nothing; GetBodySize accepts exactly the documented encodings and returns the little-endian size word. '
+                'SLIPFramedDataMessageIOGateway::MessageReceivedFromGateway (C++, lowered): the decoded bytes and frame ends equal RFC 1055 un-stuffing of the chunk, the un-stuffing state is carried to the next chunk (bounded chunk length). '
                 'UGGetOutgoingMessage / UGOutgoingMessagePrepared: the queue of unsent bytes survives the compaction, the new Message window is the free space behind it, the committed frame is [size][Enc0][body]. Bounded by maxBytes per call / output buffer size.',
 )
